@@ -4,4 +4,4 @@ From OsmtV.Rat Require Import FRModel.
 Extraction "rat_model.ml" of_string of_word of_uint32 of_word_uword
   fr_add fr_sub fr_mul fr_div fr_addA fr_subA fr_mulA fr_divA fr_neg fr_negate fr_inv
   fr_compare fr_eq fr_sign fr_isInteger fr_isZero fr_isOne fr_get_num fr_get_den fr_ceil fr_floor
-  fr_gcd fr_lcm fr_gcd_fixed fr_lcm_fixed fr_fdiv_q fr_mod fr_divexact fr_round_to_int fr_hash wfb.
+  fr_gcd fr_lcm fr_gcd_fixed fr_lcm_fixed fr_fdiv_q fr_mod fr_divexact fr_divexact_fixed fr_round_to_int fr_hash wfb.
